@@ -124,6 +124,32 @@ pub fn run(ctx: &mut Ctx) {
         rep.sample(|| json!({"stage":"sweep-var","source":src}));
     });
 
+    // ---- two integer arguments: every pair of the integer boundary pool (which holds the limits of the 64-bit range
+    // counted in seconds, milli-, micro- and nanoseconds as well), for every built-in and constructor ---------------
+    let ints: Vec<CelValue> = vals::int_pool().into_iter().map(CelValue::from_int).collect();
+    ctx.stage("sweep-int-pairs", nn * 2, false, |idx, _rng, rep| {
+        let name = names[(idx / 2) as usize];
+        let src = if idx % 2 == 0 { format!("{}(a, b)", name) } else { format!("a.{}(b)", name) };
+        let prog = match mon::compile(&src) {
+            Ok(p) => p,
+            Err(o) => {
+                check_total(rep, "sweep compile", &src, &[], &o);
+                return;
+            }
+        };
+        let mut ctxc = rscel::CelContext::new();
+        ctxc.add_program("main", prog);
+        for a in &ints {
+            for b in &ints {
+                let binds = vec![("a".to_string(), a.clone()), ("b".to_string(), b.clone())];
+                let out = mon::run_in(&mut ctxc, &binds);
+                check_total(rep, "sweep-int-pairs", &src, &binds, &out);
+            }
+        }
+        rep.count("sweep_int_pair_programs");
+        rep.distinct(&src, true);
+    });
+
     // ---- built-in sweep, literal form (the compiler executes the call) --------------------
     let spelled: Vec<(String, CelValue)> = full
         .iter()
